@@ -168,6 +168,25 @@ def run(ctx):
                 ctx.disagree("config.from_dict", rq, m, okr[1])
         elif "ok" not in m or json.dumps(fr.dec_obj(m["ok"])) != json.dumps(okr[1]):
             ctx.disagree("config.from_dict", rq, m, okr[1])
+    # every config of the alphabet as ONE '*' rule (validated lazily, at resolution) under either algorithm -- including configs the
+    # algorithm refuses for every operator (float weights under min/max, integer weights under float casting): original and reloaded recipe
+    # resolve alike and quantize to the same bytes; a refusal is a refusal on both sides
+    k_dir = 0
+    for name, cfg in fr.CFG_ALPHABET:
+        if name.startswith("ctor"):
+            continue
+        for alg in ("min_max_uniform_quantize", "float_casting"):
+            if ctx.left() < 40:
+                break
+            adds = [{"k": "add", "regex": ".*", "operation": "*", "cfg": cfg, "alg": alg, "use_enum": bool(k_dir % 2)}]
+            try:
+                reload_oracle(ctx, adds, with_model=MODELS[k_dir % len(MODELS)] if (ctx.tier != "quick" or k_dir % 3 == 0) else None)
+            except Exception as e:  # noqa: BLE001
+                ctx.fail(f"a '*' rule ({name}, {alg}) that went through export and reload makes resolution raise {type(e).__name__}: {str(e)[:120]} "
+                         "(the original object resolves it)", {"adds": adds}, "reload-resolution-raises")
+            ctx.case({"star_rule": (name, alg)}, True)
+            ctx.tag("directed_star_rule")
+            k_dir += 1
     # histories -> get -> load (model vs code, step by step) + reload oracle
     n = 300 if ctx.tier == "quick" else 2500
     n_bytes = 30 if ctx.tier == "quick" else 200
